@@ -40,6 +40,13 @@ import (
 	"golang.org/x/sync/singleflight"
 )
 
+// maxChunksPerFetch is the maximum number of chunks that Cache() requests at once.
+const maxChunksPerFetch = 4096
+
+// maxConcurrentCacheRequests is the maximum number of concurrent requests issued by Cache()
+// when prefetch_chunk_size is configured.
+const maxConcurrentCacheRequests = 64
+
 var contentRangeRegexp = regexp.MustCompile(`bytes ([0-9]+)-([0-9]+)/([0-9]+|\\*)`)
 
 type Blob interface {
@@ -188,11 +195,20 @@ func (b *blob) cacheAt(offset int64, size int64, fr fetcher, cacheOpts *options)
 	fetchReg := region{floor(offset, b.chunkSize), ceil(offset+size-1, b.chunkSize) - 1}
 	discard := make(map[region]io.Writer)
 
+	// The blob size is reported by the (untrusted) registry so the number of chunks in
+	// the requested range is unbounded. Fetch them batch by batch: the walk ends as soon
+	// as the registry fails to serve a batch and the memory consumption is bounded.
 	err := b.walkChunks(fetchReg, func(reg region) error {
 		if r, err := b.cache.Get(fr.genID(reg), cacheOpts.cacheOpts...); err == nil {
 			return r.Close() // nop if the cache hits
 		}
 		discard[reg] = io.Discard
+		if len(discard) >= maxChunksPerFetch {
+			if err := b.fetchRange(discard, cacheOpts); err != nil {
+				return err
+			}
+			discard = make(map[region]io.Writer)
+		}
 		return nil
 	})
 	if err != nil {
@@ -220,12 +236,23 @@ func (b *blob) Cache(offset int64, size int64, opts ...Option) error {
 		return b.cacheAt(offset, size, fr, &cacheOpts)
 	}
 
-	eg, _ := errgroup.WithContext(context.Background())
+	eg, egCtx := errgroup.WithContext(context.Background())
+	// The range can be huge when the (untrusted) registry reports a huge blob size:
+	// bound the number of in-flight requests and stop at the first failure.
+	eg.SetLimit(maxConcurrentCacheRequests)
 
 	fetchSize := b.chunkSize * (b.prefetchChunkSize / b.chunkSize)
 
 	end := offset + size
+	if limit := b.size + b.chunkSize; end > limit {
+		// The requested range can come from the (untrusted) prefetch landmark. No chunk
+		// starts at or after "limit" so the remaining iterations would be nops.
+		end = limit
+	}
 	for i := offset; i < end; i += fetchSize {
+		if egCtx.Err() != nil {
+			break // a request failed; eg.Wait() returns its error
+		}
 		i, l := i, fetchSize
 		if i+l > end {
 			l = end - i
